@@ -2,9 +2,11 @@ package clientutil
 
 import (
 	"fmt"
+	"slices"
 	"strings"
 
 	"github.com/luikyv/go-oidc/internal/oidc"
+	"github.com/luikyv/go-oidc/internal/strutil"
 	"github.com/luikyv/go-oidc/pkg/goidc"
 )
 
@@ -18,9 +20,10 @@ func AreScopesAllowed(
 	}
 
 	// Filter the client scopes that are available.
+	clientScopeIDs := strutil.SplitWithSpaces(c.ScopeIDs)
 	var clientScopes []goidc.Scope
 	for _, scope := range availableScopes {
-		if strings.Contains(c.ScopeIDs, scope.ID) {
+		if slices.Contains(clientScopeIDs, scope.ID) {
 			clientScopes = append(clientScopes, scope)
 		}
 	}
